@@ -258,6 +258,23 @@ def check(ctx):
     ctx.clause = "5-message-length"
     _message_length(ctx, repo, msg)
 
+    # a constructor that receives AVPs adds their lengths to the header it is given (loaded=False): handing it the header OBJECT of
+    # an existing message counts that message's AVPs twice and leaves both messages sharing one header
+    reuse = []
+    for fname, fn_ in sorted(msg.methods.items()):
+        for c_ in fn_calls(fn_):
+            if call_name(c_) in ("cls", "DiameterMessage", "DiameterRequest", "DiameterAnswer") and kwarg(c_, "header") is not None \
+                    and kwarg(c_, "avps") is not None:
+                h_ = kwarg(c_, "header")
+                lo_ = kwarg(c_, "loaded")
+                if isinstance(h_, ast.Attribute) and h_.attr in ("header", "_header") \
+                        and not (isinstance(lo_, ast.Constant) and lo_.value is True) and call_name(c_) in ("cls", "DiameterMessage"):
+                    reuse.append((fname, c_))
+    ctx.decide(not reuse, "R-FLOW/ctor-header-reuse", f"{msg.qual}.{reuse[0][0] if reuse else '*'}", msg.where(reuse[0][1] if reuse else None),
+               "no message is constructed around the header object of another message together with its AVPs",
+               f"`{ast.unparse(reuse[0][1])[:70] if reuse else ''}` builds a message around another message's header object and appends the "
+               f"AVPs again: the Message Length counts every AVP twice (in both messages, which now share the header)",
+               key="header_reuse")
     # incremental length adjustments anywhere in DiameterMessage use length + padding (shared with C11 clause 4)
     from .c11 import length_arith_all
     length_arith_all(ctx, repo, msg)
